@@ -17,73 +17,95 @@
 EXTENDS Naturals, Sequences, FiniteSets
 
 CONSTANTS Backends,      \* ids of backend connections per session, e.g. {"b1","b2","b3"}
-          MaxJoins       \* bound on JoinGame packets per session (model checking only)
+          MaxJoins,      \* bound on JoinGame packets per session (model checking only)
+          AllowEarlyAck  \* BOOLEAN: accept the deviation EarlyAck below (what the pinned code does)
 
 VARIABLES cph,      \* client phase
           modern,   \* BOOLEAN
           name,     \* user name the client sent
           bph,      \* [Backends -> backend connection phase]
-          joins     \* number of JoinGame packets that reached the client
+          joins,    \* number of JoinGame packets that reached the client
+          cnt       \* relay counters: what backends sent / got vs. what the client got / sent
+                    \* [finSent, finRecv, ackSent, ackRecv, joinSent]
 
-svars == <<cph, modern, name, bph, joins>>
+svars == <<cph, modern, name, bph, joins, cnt>>
 
-CPh == {"init", "hs", "start", "encreq", "encresp", "success", "acked", "cfgfin", "cfgack", "play", "closed"}
+CPh == {"init", "hs", "start", "encreq", "encresp", "success", "acked", "cfgfin", "cfgack", "play", "recfg", "closed"}
 BPh == {"none", "accepted", "hs", "start", "success", "acked", "cfgfin", "cfgack", "join", "closed"}
 
 \* order of client phases that matter for "has the client already ..."
 CRank(p) == CASE p = "init" -> 0 [] p = "hs" -> 1 [] p = "start" -> 2 [] p = "encreq" -> 3 [] p = "encresp" -> 4
               [] p = "success" -> 5 [] p = "acked" -> 6 [] p = "cfgfin" -> 7 [] p = "cfgack" -> 8 [] p = "play" -> 9
-              [] p = "closed" -> 10
+              [] p = "recfg" -> 9 [] p = "closed" -> 10
 BRank(p) == CASE p = "none" -> 0 [] p = "accepted" -> 1 [] p = "hs" -> 2 [] p = "start" -> 3 [] p = "success" -> 4
               [] p = "acked" -> 5 [] p = "cfgfin" -> 6 [] p = "cfgack" -> 7 [] p = "join" -> 8 [] p = "closed" -> 9
 
-SInit(m) == /\ cph = "init" /\ modern = m /\ name = "" /\ joins = 0
+Zero == [finSent |-> 0, finRecv |-> 0, ackSent |-> 0, ackRecv |-> 0, joinSent |-> 0]
+SInit(m) == /\ cph = "init" /\ modern = m /\ name = "" /\ joins = 0 /\ cnt = Zero
             /\ bph = [b \in Backends |-> "none"]
 
 Live(b) == bph[b] \notin {"none", "closed"}
 
 ---------------------------------------------------------------------------
 (* client connection *)
-CSendHandshake == cph = "init" /\ cph' = "hs" /\ UNCHANGED <<modern, name, bph, joins>>
-CSendStart(n) == cph = "hs" /\ cph' = "start" /\ name' = n /\ UNCHANGED <<modern, bph, joins>>
-CRecvEncRequest == cph = "start" /\ cph' = "encreq" /\ UNCHANGED <<modern, name, bph, joins>>
-CSendEncResponse == cph = "encreq" /\ cph' = "encresp" /\ UNCHANGED <<modern, name, bph, joins>>
+CSendHandshake == cph = "init" /\ cph' = "hs" /\ UNCHANGED <<modern, name, bph, joins, cnt>>
+CSendStart(n) == cph = "hs" /\ cph' = "start" /\ name' = n /\ UNCHANGED <<modern, bph, joins, cnt>>
+CRecvEncRequest == cph = "start" /\ cph' = "encreq" /\ UNCHANGED <<modern, name, bph, joins, cnt>>
+CSendEncResponse == cph = "encreq" /\ cph' = "encresp" /\ UNCHANGED <<modern, name, bph, joins, cnt>>
 \* login success only answers a login start (after the encryption exchange, if any)
-CRecvSuccess == cph \in {"start", "encresp"} /\ cph' = "success" /\ UNCHANGED <<modern, name, bph, joins>>
-CSendAck == modern /\ cph = "success" /\ cph' = "acked" /\ UNCHANGED <<modern, name, bph, joins>>
+CRecvSuccess == cph \in {"start", "encresp"} /\ cph' = "success" /\ UNCHANGED <<modern, name, bph, joins, cnt>>
+CSendAck == modern /\ cph = "success" /\ cph' = "acked" /\ UNCHANGED <<modern, name, bph, joins, cnt>>
 \* the backend's finish-configuration is relayed: some backend connection must have sent it
 CRecvCfgFinish == /\ modern /\ cph = "acked"
-                  /\ \E b \in Backends : BRank(bph[b]) >= BRank("cfgfin")
-                  /\ cph' = "cfgfin" /\ UNCHANGED <<modern, name, bph, joins>>
-CSendCfgAck == modern /\ cph = "cfgfin" /\ cph' = "cfgack" /\ UNCHANGED <<modern, name, bph, joins>>
+                  /\ cnt.finRecv < cnt.finSent            \* one relayed finish per finish a backend sent
+                  /\ cph' = "cfgfin" /\ cnt' = [cnt EXCEPT !.finRecv = @ + 1]
+                  /\ UNCHANGED <<modern, name, bph, joins>>
+CSendCfgAck == /\ modern /\ cph = "cfgfin" /\ cph' = "cfgack" /\ cnt' = [cnt EXCEPT !.ackSent = @ + 1]
+               /\ UNCHANGED <<modern, name, bph, joins>>
+\* a server switch sends a 1.20.2+ client back to the configuration phase
+CRecvStartCfg == modern /\ cph = "play" /\ cph' = "recfg" /\ UNCHANGED <<modern, name, bph, joins, cnt>>
+CSendCfgEnter == modern /\ cph = "recfg" /\ cph' = "acked" /\ UNCHANGED <<modern, name, bph, joins, cnt>>
 \* JoinGame reaches the client only in play and only if some backend sent one
 CRecvJoin == /\ joins < MaxJoins
              /\ (IF modern THEN cph \in {"cfgack", "play"} ELSE cph \in {"success", "play"})
-             /\ \E b \in Backends : bph[b] \in {"join", "closed"}
-             /\ cph' = "play" /\ joins' = joins + 1 /\ UNCHANGED <<modern, name, bph>>
-CClosed == cph' = "closed" /\ UNCHANGED <<modern, name, bph, joins>>
+             /\ joins < cnt.joinSent                  \* every JoinGame the client sees was sent by a backend
+             /\ cph' = "play" /\ joins' = joins + 1 /\ UNCHANGED <<modern, name, bph, cnt>>
+CClosed == cph' = "closed" /\ UNCHANGED <<modern, name, bph, joins, cnt>>
 
 (* backend connection b *)
 \* the proxy dials a backend only for a client that logged in (1.20.2+: and acknowledged it)
 BAccept(b) == /\ bph[b] = "none"
               /\ CRank(cph) >= (IF modern THEN CRank("acked") ELSE CRank("start"))
-              /\ bph' = [bph EXCEPT ![b] = "accepted"] /\ UNCHANGED <<cph, modern, name, joins>>
-BRecvHandshake(b) == bph[b] = "accepted" /\ bph' = [bph EXCEPT ![b] = "hs"] /\ UNCHANGED <<cph, modern, name, joins>>
+              /\ bph' = [bph EXCEPT ![b] = "accepted"] /\ UNCHANGED <<cph, modern, name, joins, cnt>>
+BRecvHandshake(b) == bph[b] = "accepted" /\ bph' = [bph EXCEPT ![b] = "hs"] /\ UNCHANGED <<cph, modern, name, joins, cnt>>
 \* the login start the backend sees names the same user
 BRecvStart(b, n) == /\ bph[b] = "hs" /\ n = name
-                    /\ bph' = [bph EXCEPT ![b] = "start"] /\ UNCHANGED <<cph, modern, name, joins>>
-BSendSuccess(b) == bph[b] = "start" /\ bph' = [bph EXCEPT ![b] = "success"] /\ UNCHANGED <<cph, modern, name, joins>>
-BRecvAck(b) == modern /\ bph[b] = "success" /\ bph' = [bph EXCEPT ![b] = "acked"] /\ UNCHANGED <<cph, modern, name, joins>>
-BSendCfgFinish(b) == modern /\ bph[b] = "acked" /\ bph' = [bph EXCEPT ![b] = "cfgfin"] /\ UNCHANGED <<cph, modern, name, joins>>
+                    /\ bph' = [bph EXCEPT ![b] = "start"] /\ UNCHANGED <<cph, modern, name, joins, cnt>>
+BSendSuccess(b) == bph[b] = "start" /\ bph' = [bph EXCEPT ![b] = "success"] /\ UNCHANGED <<cph, modern, name, joins, cnt>>
+BRecvAck(b) == modern /\ bph[b] = "success" /\ bph' = [bph EXCEPT ![b] = "acked"] /\ UNCHANGED <<cph, modern, name, joins, cnt>>
+BSendCfgFinish(b) == /\ modern /\ bph[b] = "acked" /\ bph' = [bph EXCEPT ![b] = "cfgfin"]
+                     /\ cnt' = [cnt EXCEPT !.finSent = @ + 1] /\ UNCHANGED <<cph, modern, name, joins>>
 \* the proxy acknowledges the backend's finish only after the client acknowledged it
-BRecvCfgAck(b) == /\ modern /\ bph[b] = "cfgfin" /\ CRank(cph) >= CRank("cfgack")
-                  /\ bph' = [bph EXCEPT ![b] = "cfgack"] /\ UNCHANGED <<cph, modern, name, joins>>
+(* Deviation of the implementation, named rather than hidden: the client's configuration session
+   handler is re-used for every re-configuration and its "client finished" future stays completed
+   after the first round, so on a SERVER SWITCH the proxy acknowledges the new backend's
+   finish-configuration at once, before the client has acknowledged it (the backend then sends
+   JoinGame while the client is still in the configuration phase; the play-packet queue of C14 holds
+   it back).  Velocity re-arms that future on every activation. *)
+EarlyAck == AllowEarlyAck /\ cnt.ackSent >= 1 /\ cnt.ackRecv <= cnt.ackSent
+
+BRecvCfgAck(b) == /\ modern /\ bph[b] = "cfgfin"
+                  /\ (cnt.ackRecv < cnt.ackSent \/ EarlyAck)   \* one acknowledgement per acknowledgement of the client
+                  /\ bph' = [bph EXCEPT ![b] = "cfgack"] /\ cnt' = [cnt EXCEPT !.ackRecv = @ + 1]
+                  /\ UNCHANGED <<cph, modern, name, joins>>
 BSendJoin(b) == /\ bph[b] = (IF modern THEN "cfgack" ELSE "success")
-                /\ bph' = [bph EXCEPT ![b] = "join"] /\ UNCHANGED <<cph, modern, name, joins>>
-BClosed(b) == bph[b] # "none" /\ bph' = [bph EXCEPT ![b] = "closed"] /\ UNCHANGED <<cph, modern, name, joins>>
+                /\ bph' = [bph EXCEPT ![b] = "join"] /\ cnt' = [cnt EXCEPT !.joinSent = @ + 1]
+                /\ UNCHANGED <<cph, modern, name, joins>>
+BClosed(b) == bph[b] # "none" /\ bph' = [bph EXCEPT ![b] = "closed"] /\ UNCHANGED <<cph, modern, name, joins, cnt>>
 
 SNext == \/ CSendHandshake \/ (\E n \in {"a", "b"} : CSendStart(n)) \/ CRecvEncRequest \/ CSendEncResponse
          \/ CRecvSuccess \/ CSendAck \/ CRecvCfgFinish \/ CSendCfgAck \/ CRecvJoin \/ CClosed
+         \/ CRecvStartCfg \/ CSendCfgEnter
          \/ \E b \in Backends : \/ BAccept(b) \/ BRecvHandshake(b) \/ (\E n \in {"a", "b"} : BRecvStart(b, n))
                                 \/ BSendSuccess(b) \/ BRecvAck(b) \/ BSendCfgFinish(b) \/ BRecvCfgAck(b)
                                 \/ BSendJoin(b) \/ BClosed(b)
@@ -97,6 +119,9 @@ PlayImpliesJoined == cph = "play" => joins >= 1
 \* no backend is contacted for a client that did not log in
 NoBackendBeforeLogin == (\E b \in Backends : bph[b] # "none") => CRank(cph) >= CRank("start")
 \* a backend sees the configuration acknowledged only after the client did
-CfgAckOrder == modern => \A b \in Backends : BRank(bph[b]) >= BRank("cfgack") /\ bph[b] # "closed" => CRank(cph) >= CRank("cfgack")
+CfgAckOrder == /\ cnt.ackRecv <= cnt.ackSent + (IF AllowEarlyAck THEN 1 ELSE 0)
+               /\ cnt.finRecv <= cnt.finSent /\ joins <= cnt.joinSent
+\* once the client is gone and everything settled, no backend connection is left open (trace END)
+AllBackendsClosed == \A b \in Backends : bph[b] \in {"none", "closed"}
 TypeOK == cph \in CPh /\ \A b \in Backends : bph[b] \in BPh
 =============================================================================
